@@ -21,7 +21,7 @@ EXPLANATION = ("(a) Trees: SIR_pair_based_pure_IC (through the public entry poin
                "real _dEBCM_ satisfies dtheta/dt = (tau+gamma)(g(theta) - theta), so fixed points of g are exactly the rest points of "
                "EBCM, where I = 0 and R/N = 1 - psihat(theta) = the returned attack rate; Attack_rate_discrete's iteration is the theta "
                "update of EBCM_discrete, whose R(t+1) = R(t) + I(t); the *_from_graph variants agree with the direct functions.")
-BOUNDS = {'quick': 'trees P2, P3, P4, S3 with all seed placements (up to automorphism), order m = 6 (weights on P3, S3: m = 4); limits on paw, irr5 with rho = 1/5, m = 5; final-size identities K = 3, k <= 2 iterations',
+BOUNDS = {'quick': 'trees P2, P3, P4, S3 with all seed placements (up to automorphism), order m = 6 (weights on P3, S3: m = 4); limits on paw, irr5 with rho = 1/5, m = 5; final-size identities K = 3 (degrees 1..3) and degrees 0..2 with P0 > 0, k <= 2 iterations',
           'thorough': 'adds T5, P5, S4 (m = 8), weights on P4; m = 8 for limits; K = 4, k <= 3'}
 ASSUMPTIONS = ['bounded statement: agreement of Taylor coefficients to order m (equality for all t is the Sharkey et al. theorem and is not claimed)',
                'convergence of the fixed-point iterations and of t -> infinity is analysis, not claimed', 'exact rational arithmetic; L5']
